@@ -21,6 +21,7 @@ import (
 	"sort"
 	"strings"
 
+	"github.com/Comcast/rulio/core"
 	"github.com/Comcast/rulio/service"
 	"github.com/Comcast/rulio/sys"
 	yaml "gopkg.in/yaml.v2"
@@ -393,6 +394,13 @@ func genHistory(g *gen.Gen, n int) []Req {
 		case 9:
 			r.URI = "/loc/events/ingest"
 			p["event"] = map[string]interface{}{"e": val(g)}
+			if g.Intn(3) == 0 {
+				// the same event handed in as a work document that nothing has been done for yet
+				r.URI = "/loc/events/retry"
+				wj, _ := json.Marshal(map[string]interface{}{"event": p["event"]})
+				delete(p, "event")
+				p["work"] = string(wj)
+			}
 		case 10:
 			r.URI = "/loc/facts/query"
 			p["query"] = map[string]interface{}{"and": []interface{}{map[string]interface{}{"pattern": map[string]interface{}{"a": "?x"}}}}
@@ -478,6 +486,9 @@ func negatives(g *gen.Gen) []Req {
 		Req{URI: "/loc/facts/get", Params: map[string]interface{}{"location": "plain", "id": "never-added"}, Neg: "operation fails: no such fact"},
 		Req{URI: "/loc/rules/add", Params: map[string]interface{}{"location": "plain", "rule": map[string]interface{}{"action": map[string]interface{}{"code": "1"}}}, Neg: "operation fails: rule without when/schedule"},
 		Req{URI: "/loc/facts/query", Params: map[string]interface{}{"location": "plain", "query": map[string]interface{}{"bogus": 1.0}}, Neg: "operation fails: unparsable query"},
+		Req{URI: "/loc/events/retry", Prep: "throwing-rule", Params: map[string]interface{}{"location": "plain", "work": `{"event":{"e":"boom"}}`}, Neg: "operation fails: the work reaches a rule whose condition throws"},
+		Req{URI: "/loc/events/ingest", Prep: "throwing-rule", Params: map[string]interface{}{"location": "plain", "event": map[string]interface{}{"e": "boom"}}, Neg: "operation fails: the event reaches a rule whose condition throws"},
+		Req{URI: "/loc/events/retry", Params: map[string]interface{}{"location": "plain"}, Neg: "required parameter work missing"},
 	)
 	return out
 }
@@ -686,6 +697,27 @@ func main() {
 						r.Violate("", "/loc/admin/create through the service does not report what the direct System call reports", rep.J{"request": q, "service_response": results["direct"][i], "system_created": created, "system_err": fmt.Sprint(err), "history": hist[:i+1]})
 					}
 				}
+				if q.URI == "/loc/events/retry" {
+					loc, _ := q.Params["location"].(string)
+					var fr core.FindRules
+					json.Unmarshal([]byte(q.Params["work"].(string)), &fr)
+					err := twin.RetryEventWork(drv.Ctx(), loc, &fr)
+					var vals []string
+					for _, v := range fr.Values {
+						vals = append(vals, fmt.Sprint(v))
+					}
+					sort.Strings(vals)
+					out := strings.Join(vals, ",")
+					if err != nil {
+						out = "ERR:" + err.Error()
+					}
+					r.Count("compared_with_direct_system_call", 1)
+					qi := q
+					qi.URI = "/loc/events/ingest" // same response shape
+					if same, want := sameAsSys(qi, results["direct"][i], out); !same {
+						r.Violate(unrenderableKey(qi, results["direct"][i], out), fmt.Sprintf("/loc/events/retry through the service does not return what the direct System call returns (%s)", want), rep.J{"request": q, "service_response": results["direct"][i], "system_result": out, "history": hist[:i+1]})
+					}
+				}
 				if q.URI == "/loc/admin/size" {
 					loc, _ := q.Params["location"].(string)
 					n, err := twin.GetSize(drv.Ctx(), loc)
@@ -762,6 +794,9 @@ func main() {
 				if l, err := eng.sys.GetLocation(drv.Ctx(), "plain"); err == nil {
 					l.SetReadOnly(drv.Ctx(), true)
 				}
+			}
+			if q.Prep == "throwing-rule" {
+				eng.sys.AddRule(drv.Ctx(), "plain", "thr", `{"when":{"pattern":{"e":"boom"}},"condition":{"code":"throw 'bad condition'"},"action":{"code":"1"}}`)
 			}
 			got := enc.do(eng, q)
 			eng.srv.Close()
